@@ -700,7 +700,15 @@ class Type2TagMemoryReader(object):
 
     def synchronize(self):
         """Write pages that contain modified data back to tag memory."""
-        self._write_to_tag(stop=len(self))
+        try:
+            self._write_to_tag(stop=len(self))
+        except Type2TagCommandError:
+            # A failed write command may or may not have changed the
+            # tag memory. Forget all that was read and modified, it
+            # is read again from the tag when accessed.
+            del self._data_from_tag[:]
+            del self._data_in_cache[:]
+            raise
 
 
 def activate(clf, target):
